@@ -4,34 +4,51 @@
 
 usage: c17_py2coq.py <repo root> <out.v>
 
-WHAT IS TRANSLATED.  The ROOT functions below and, transitively, every function of gate_typical.py they call; plus every
+WHAT IS TRANSLATED.  The root functions of GROUPS below and, transitively, every function of the same module they call; plus every
 zero-argument function whose name starts with `calc_base_matrix_1qutrit_` (quara reaches them through eval(method_name)();
 they become the method table `g_method_table`).  Every function f becomes  `Definition g_f (v_arg ... : pyv) : pres pyv`.
 
 ACCEPTED SUBSET (anything else raises Unsupported: exit code 3, `UNSUPPORTED: <node> (line n): <why>`; never skipped)
-  statements  docstring / bare string | NAME = e | NAME, NAME = e | NAME.append(e) | assert e | if / elif / else
+  statements  docstring / bare string | NAME = e | NAME, NAME = e | NAME.append(e) | NAME.extend(e) | NAME.remove(e) | assert e | if / elif / else
               | NAME += e | NAME[e, e] = e (integer matrix)
               | for NAME | NAME, NAME in e: <assignments, appends, ifs, asserts, nested for, break as last statement of a branch>
                 (no return / raise inside a loop; the names assigned in the body are the loop state; a name first bound inside a loop is None before it)
-              | return e | raise Name(...)
-  expressions str / int / float / None / True / False / complex (1j) constants | names | [e, ...] | (e, ...) | {"k": e, ...}
+              | return e | raise Name(...) | def NAME(params): ...  (nested function that uses only its own parameters)
+  expressions str / int / float / None / True / False / complex (1j) constants | f"...{e}..." (e a string) | names | [e, ...] | (e, ...) | {"k": e, ...}
               | e + e | e * e | e @ e | -e | e == e | e != e | e < <= > >= e | e in e | e not in e | not e | e and e | e or e
               | e[e] | e["str const"] | e[a:b] (int const bounds) | e.T | sorted(e) | enumerate(e) | int(e, base) | e.count(e)
               | get_pauli_basis(n_qubit=const)  (external: element i is the atom "pauli<n>:<i>")
-              | e if e else e | len(e) | e.split("c") | e.replace(e, e) | np.pi | np.zeros(shape=(n, n), ...) | np.kron(e, e)
-              | np.array(e, ...) | np.eye(n, ...) | eval(e)() | f(e, ..., kw=e) for translated f (all parameters given)
+              | [e for NAME | NAME, NAME in e] | product(e, ...) | product(e, repeat=e) | e.join(e) | e if e else e | len(e) | e.split("c") | e.replace(e, e) | np.pi | np.zeros(shape=(n, n), ...) | np.kron(e, e)
+              | np.array(e, ...) | np.eye(n, ...) | eval(e)() | NAME = eval(e) ... NAME() | f(e, ..., kw=e) for translated f (all parameters given)
   A float constant must be an exact short decimal (it is read as a rational: 0.50 -> 1/2).
 An `if` duplicates the statements that follow it into both branches (no join points; the functions are small).
+
+ORACLE CALLS (not translated, only the dispatch around them): OPAQUE_VEC1 / EXTERNAL below and the zero-argument functions
+reached through eval in state_typical.py (get_state_*_pure_state_vector) become named atoms (VApp).
 
 TRUSTED: this file and C17_PySem.v's reading of the vocabulary (value kinds, exception class names, formal matrices)."""
 import ast, sys, os
 from fractions import Fraction
 
-ROOTS = ["calc_hamiltonian_mat_from_gate_name_2qutrit_base_matrices", "generate_gate_1qutrit_single_gellmann_hamiltonian_mat",
-         "calc_coeff_from_angle_str",
-         "get_permutation_matrix_from_ascending_order", "permute_pauli_symbol", "generate_gate_toffoli_hamiltonian_mat", "generate_gate_fredkin_hamiltonian_mat"]
-METHOD_PREFIX = "calc_base_matrix_1qutrit_"
-SOURCE = "quara/objects/gate_typical.py"
+# (source file, root functions, prefix of the zero-argument functions reached through eval(name)() or None)
+GROUPS = [
+    ("quara/objects/gate_typical.py",
+     ["calc_hamiltonian_mat_from_gate_name_2qutrit_base_matrices", "generate_gate_1qutrit_single_gellmann_hamiltonian_mat", "calc_coeff_from_angle_str",
+      "get_permutation_matrix_from_ascending_order", "permute_pauli_symbol", "generate_gate_toffoli_hamiltonian_mat", "generate_gate_fredkin_hamiltonian_mat",
+      "get_gate_names", "get_gate_names_2qubit_asymmetric", "get_gate_names_3qubit_asymmetric"],
+     "calc_base_matrix_1qutrit_"),
+    ("quara/objects/state_typical.py", ["get_state_names", "is_valid_state_name", "generate_state_pure_state_vector_from_name", "generate_state_density_mat_from_name"],
+     ("opaque", "get_state_", "_pure_state_vector")),
+    ("quara/objects/povm_typical.py", ["get_povm_names", "get_povm_names_rank1", "get_povm_names_not_rank1"], None),
+    ("quara/objects/mprocess_typical.py", ["get_mprocess_names_type1", "get_mprocess_names_type2"], None),
+    ("quara/objects/state_ensemble_typical.py", ["get_state_ensemble_names"], None),
+]
+
+
+# oracle calls: numeric functions that are NOT translated; only the dispatch around them is.
+#   module-level one-argument vector functions -> atom "f:<arg>";   imported functions -> VApp "f" [args]
+OPAQUE_VEC1 = {"get_state_bell_pure_state_vector"}
+EXTERNAL = {"calc_mat_from_vector_adjoint"}
 
 
 class Unsupported(Exception):
@@ -61,8 +78,11 @@ def v(name):
 
 
 class Fn:
-    def __init__(self, mod, fdef):
+    def __init__(self, mod, fdef, coq_name=None):
         self.mod, self.f = mod, fdef
+        self.coq_name = coq_name or ("g_" + fdef.name)
+        self.local_defs = {}          # nested function name -> (coq name, parameter names)
+        self.nested_text = []
         self.params = [a.arg for a in fdef.args.args]
         if fdef.args.vararg or fdef.args.kwarg or fdef.args.kwonlyargs or fdef.args.posonlyargs:
             fail(fdef, "only plain positional parameters")
@@ -172,6 +192,39 @@ class Fn:
                 short = k("(VBool %s)" % ("true" if is_or else "false"))
                 return "(pbind (py_truth %s) (fun %s => if %s then %s else %s))" % (x, b, b, short if is_or else other, other if is_or else short)
             return self.expr(e.values[0], bound, after)
+        if isinstance(e, ast.JoinedStr):
+            parts = []
+            for val in e.values:
+                if isinstance(val, ast.Constant) and isinstance(val.value, str):
+                    parts.append(val)
+                elif isinstance(val, ast.FormattedValue) and val.conversion == -1 and val.format_spec is None:
+                    parts.append(val)
+                else:
+                    fail(e, "f-string part")
+            def go(i, acc):
+                if i == len(parts):
+                    return k(acc)
+                pt = parts[i]
+                if isinstance(pt, ast.Constant):
+                    return self.bind("(py_add %s (VStr %s))" % (acc, cstr(pt.value)), lambda y: go(i + 1, y))
+                return self.expr(pt.value, bound, lambda x: self.bind("(py_fstr %s)" % x, lambda y: self.bind("(py_add %s %s)" % (acc, y), lambda z: go(i + 1, z))))
+            return go(0, '(VStr "")')
+        if isinstance(e, ast.ListComp):
+            if len(e.generators) != 1 or e.generators[0].ifs or e.generators[0].is_async:
+                fail(e, "comprehension with several generators / conditions")
+            g = e.generators[0]
+            if isinstance(g.target, ast.Name):
+                targets = [g.target.id]
+            elif isinstance(g.target, ast.Tuple) and all(isinstance(x, ast.Name) for x in g.target.elts):
+                targets = [x.id for x in g.target.elts]
+            else:
+                fail(e, "comprehension target")
+            def comp(x):
+                it = self.tmp("it"); items = self.tmp("items"); res = self.tmp("res")
+                inner = self.expr(e.elt, bound | set(targets), lambda y: "(POk %s)" % y)
+                body = "(let %s := %s in %s)" % (v(targets[0]), it, inner) if len(targets) == 1 else self.unpack(it, targets, lambda: inner)
+                return "(pbind (py_iter %s) (fun %s => pbind (pmap (fun %s => %s) %s) (fun %s => %s)))" % (x, items, it, body, items, res, k("(VList %s)" % res))
+            return self.expr(g.iter, bound, comp)
         if isinstance(e, ast.IfExp):
             def after(x):
                 b = self.tmp("b")
@@ -203,20 +256,43 @@ class Fn:
         f = e.func
         # eval(x)()
         if isinstance(f, ast.Call) and isinstance(f.func, ast.Name) and f.func.id == "eval" and len(f.args) == 1 and not f.keywords and not e.args and not e.keywords:
-            return self.expr(f.args[0], bound, lambda x: self.bind("(py_eval_call g_method_table %s)" % x, k))
+            if self.mod.eval_kind is None:
+                fail(e, "eval in a module without a method table")
+            if self.mod.eval_kind == "opaque":
+                return self.expr(f.args[0], bound, lambda x: self.bind("(py_eval_opaque %s %s)" % (self.mod.eval_table, x), k))
+            return self.expr(f.args[0], bound, lambda x: self.bind("(py_eval_call %s %s)" % (self.mod.eval_table, x), k))
         if isinstance(f, ast.Name):
+            if f.id == "eval" and len(e.args) == 1 and not e.keywords and self.mod.eval_kind == "opaque":
+                return self.expr(e.args[0], bound, lambda x: k('(VApp "funcref" [%s])' % x))          # method = eval(name)
+            if f.id in bound and f.id not in self.mod.defs and not e.args and not e.keywords and self.mod.eval_kind == "opaque":
+                return self.bind("(py_call_ref %s %s)" % (self.mod.eval_table, v(f.id)), k)            # method()
             if f.id == "len" and len(e.args) == 1 and not e.keywords:
                 return self.expr(e.args[0], bound, lambda x: self.bind("(py_len %s)" % x, k))
             if f.id in ("sorted", "enumerate") and len(e.args) == 1 and not e.keywords:
                 return self.expr(e.args[0], bound, lambda x: self.bind("(py_%s %s)" % (f.id, x), k))
             if f.id == "int" and len(e.args) == 2 and not e.keywords:
                 return self.exprs(e.args, bound, lambda xs: self.bind("(py_int_base %s %s)" % (xs[0], xs[1]), k))
+            if f.id == "product" and f.id not in self.mod.defs and e.args:
+                if not e.keywords:
+                    return self.exprs(e.args, bound, lambda xs: self.bind("(py_product (VList [%s]))" % "; ".join(xs), k))
+                if len(e.args) == 1 and len(e.keywords) == 1 and e.keywords[0].arg == "repeat":
+                    return self.exprs([e.args[0], e.keywords[0].value], bound, lambda xs: self.bind("(py_product_repeat %s %s)" % (xs[0], xs[1]), k))
+                fail(e, "itertools.product arguments")
             if f.id == "get_pauli_basis" and f.id not in self.mod.defs:
                 arg = e.args[0] if (len(e.args) == 1 and not e.keywords) else (e.keywords[0].value if (not e.args and len(e.keywords) == 1 and e.keywords[0].arg == "n_qubit") else None)
                 n = self.intconst(arg) if arg is not None else None
                 if n is None or not (1 <= n <= 4):
                     fail(e, "get_pauli_basis needs a constant number of qubits")
                 return k("(VExt %s %d)" % (cstr("pauli%d" % n), 2 ** n))
+            if f.id in OPAQUE_VEC1 and f.id in self.mod.defs and len(e.args) == 1 and not e.keywords:
+                return self.expr(e.args[0], bound, lambda x: self.bind("(py_opaque_vec1 %s %s)" % (cstr(f.id), x), k))
+            if f.id in EXTERNAL and f.id not in self.mod.defs and not e.keywords:
+                return self.exprs(e.args, bound, lambda xs: k("(VApp %s [%s])" % (cstr(f.id), "; ".join(xs))))
+            if f.id in self.local_defs:
+                cname, params = self.local_defs[f.id]
+                if e.keywords or len(e.args) != len(params):
+                    fail(e, "call of nested function %s" % f.id)
+                return self.exprs(e.args, bound, lambda xs: self.bind("(%s %s)" % (cname, " ".join(xs)), k))
             if f.id in self.mod.defs:
                 callee = self.mod.defs[f.id]
                 params = [a.arg for a in callee.args.args]
@@ -258,6 +334,8 @@ class Fn:
                 fail(e, "np.%s" % f.attr)
             if f.attr == "split" and len(e.args) == 1 and not e.keywords:
                 return self.exprs([f.value, e.args[0]], bound, lambda xs: self.bind("(py_split %s %s)" % (xs[0], xs[1]), k))
+            if f.attr == "join" and len(e.args) == 1 and not e.keywords:
+                return self.exprs([f.value, e.args[0]], bound, lambda xs: self.bind("(py_join %s %s)" % (xs[0], xs[1]), k))
             if f.attr == "count" and len(e.args) == 1 and not e.keywords:
                 return self.exprs([f.value, e.args[0]], bound, lambda xs: self.bind("(py_count %s %s)" % (xs[0], xs[1]), k))
             if f.attr == "replace" and len(e.args) == 2 and not e.keywords:
@@ -276,13 +354,25 @@ class Fn:
             if isinstance(s.value, ast.Constant) and isinstance(s.value.value, str):
                 return nxt(bound)
             c = s.value
-            if isinstance(c, ast.Call) and isinstance(c.func, ast.Attribute) and c.func.attr == "append" and isinstance(c.func.value, ast.Name) \
+            if isinstance(c, ast.Call) and isinstance(c.func, ast.Attribute) and c.func.attr in ("append", "extend", "remove") and isinstance(c.func.value, ast.Name) \
                     and len(c.args) == 1 and not c.keywords:
                 name = c.func.value.id
                 if name not in bound:
-                    fail(s, "append to unbound name %s" % name)
-                return self.expr(c.args[0], bound, lambda x: "(pbind (py_append %s %s) (fun %s => %s))" % (v(name), x, v(name), nxt(bound)))
+                    fail(s, "%s on unbound name %s" % (c.func.attr, name))
+                return self.expr(c.args[0], bound, lambda x: "(pbind (py_%s %s %s) (fun %s => %s))" % (c.func.attr, v(name), x, v(name), nxt(bound)))
             fail(s, "expression statement")
+        if isinstance(s, ast.FunctionDef):
+            if loop is not None:
+                fail(s, "nested function inside a loop")
+            inner = Fn(self.mod, s, coq_name="%s__%s" % (self.coq_name, s.name))
+            inner.local_defs = dict(self.local_defs)
+            text = inner.translate()            # (a nested function may use only its own parameters: anything else is unbound -> Unsupported)
+            self.nested_text += inner.nested_text + [text]
+            for c in inner.calls:
+                if c not in self.calls:
+                    self.calls.append(c)
+            self.local_defs[s.name] = (inner.coq_name, inner.params)
+            return nxt(bound)
         if isinstance(s, ast.AugAssign):
             if not (isinstance(s.target, ast.Name) and isinstance(s.op, ast.Add)):
                 fail(s, "augmented assignment other than NAME += e")
@@ -388,7 +478,7 @@ class Fn:
                         out.add(n.id)
             elif isinstance(s, ast.AugAssign) and isinstance(s.target, ast.Name):
                 out.add(s.target.id)
-            elif isinstance(s, ast.Expr) and isinstance(s.value, ast.Call) and isinstance(s.value.func, ast.Attribute) and s.value.func.attr == "append" \
+            elif isinstance(s, ast.Expr) and isinstance(s.value, ast.Call) and isinstance(s.value.func, ast.Attribute) and s.value.func.attr in ("append", "extend", "remove") \
                     and isinstance(s.value.func.value, ast.Name):
                 out.add(s.value.func.value.id)
             elif isinstance(s, ast.If):
@@ -407,58 +497,77 @@ class Fn:
     def translate(self):
         body = self.block(list(self.f.body), set(self.params), lambda b: "(POk VNone)")
         args = "".join(" (%s : pyv)" % v(p) for p in self.params)
-        return "Definition g_%s%s : pres pyv :=\n  %s." % (self.f.name, args, body)
+        return "\n\n".join(self.nested_text + ["Definition %s%s : pres pyv :=\n  %s." % (self.coq_name, args, body)])
 
 
 class Mod:
-    def __init__(self, src):
+    def __init__(self, src, eval_kind=None, eval_table=None):
         tree = ast.parse(src)
         self.defs = {n.name: n for n in tree.body if isinstance(n, ast.FunctionDef)}
+        self.eval_kind, self.eval_table = eval_kind, eval_table
 
 
 def main():
     repo, out = sys.argv[1], sys.argv[2]
-    src = open(os.path.join(repo, SOURCE)).read()
-    mod = Mod(src)
-    methods = sorted(n for n, f in mod.defs.items() if n.startswith(METHOD_PREFIX) and not f.args.args)
-    done, order = {}, []
+    done, order, tables = {}, [], []
+    opaque_tables = []
+    for source, roots, prefix in GROUPS:
+        stem = os.path.basename(source)[:-3]
+        if isinstance(prefix, tuple):
+            mod = Mod(open(os.path.join(repo, source)).read(), "opaque", "g_opaque_methods_" + stem)
+            names = sorted(n for n, f in mod.defs.items() if n.startswith(prefix[1]) and n.endswith(prefix[2]) and not f.args.args)
+            opaque_tables.append((len(order), mod.eval_table, names))
+            prefix = None
+        else:
+            mod = Mod(open(os.path.join(repo, source)).read(), "literal" if prefix else None, "g_method_table")
 
-    def visit(name, stack=()):
-        if name in done:
-            return
-        if name in stack:
-            raise Unsupported("recursion through %s" % name)
-        if name not in mod.defs:
-            raise Unsupported("root function %s is not defined in %s" % (name, SOURCE))
-        fn = Fn(mod, mod.defs[name])
-        text = fn.translate()
-        for c in fn.calls:
-            visit(c, stack + (name,))
-        done[name] = text
-        order.append(name)
+        def visit(name, stack=()):
+            if name in done:
+                if done[name][0] != source:
+                    raise Unsupported("function name %s occurs in two translated modules" % name)
+                return
+            if name in stack:
+                raise Unsupported("recursion through %s" % name)
+            if name not in mod.defs:
+                raise Unsupported("root function %s is not defined in %s" % (name, source))
+            fn = Fn(mod, mod.defs[name])
+            text = fn.translate()
+            done[name] = (source, text)
+            for c in fn.calls:
+                visit(c, stack + (name,))
+            order.append(name)
 
-    for m in methods:
-        fn = Fn(mod, mod.defs[m])
-        if any(isinstance(n, ast.Call) and isinstance(n.func, ast.Call) for n in ast.walk(mod.defs[m])):
-            raise Unsupported("method-table function %s uses eval" % m)
-        text = fn.translate()
-        if fn.calls:
-            raise Unsupported("method-table function %s calls %s" % (m, fn.calls))
-        done[m] = text
-        order.append(m)
-    n_methods = len(order)
-    for r in ROOTS:
-        visit(r)
+        if prefix:
+            methods = sorted(n for n, f in mod.defs.items() if n.startswith(prefix) and not f.args.args)
+            for m in methods:
+                fn = Fn(mod, mod.defs[m])
+                if any(isinstance(n, ast.Call) and isinstance(n.func, ast.Call) for n in ast.walk(mod.defs[m])):
+                    raise Unsupported("method-table function %s uses eval" % m)
+                text = fn.translate()
+                if fn.calls:
+                    raise Unsupported("method-table function %s calls %s" % (m, fn.calls))
+                done[m] = (source, text); order.append(m)
+            tables.append((len(order), methods))
+        for r in roots:
+            visit(r)
     with open(out, "w") as f:
-        f.write("(* GENERATED by gen/c17_py2coq.py from %s - do not edit *)\n" % SOURCE)
+        f.write("(* GENERATED by gen/c17_py2coq.py from %s - do not edit *)\n" % ", ".join(g[0] for g in GROUPS))
         f.write("From Coq Require Import String List ZArith QArith Qcanon Bool.\nFrom QV.Model Require Import C17_PySem.\nImport ListNotations.\nOpen Scope string_scope.\n\n")
         f.write("Definition py_assert_eq (a b : pyv) : pres unit := if py_eqb a b then POk tt else PErr \"ValueError\".\n")
-        f.write("Definition np_array_any (a : pyv) : pres pyv := match np_array a with POk x => POk x | PErr _ => np_array1 a end.\n\n")
-        for name in order[:n_methods]:
-            f.write(done[name] + "\n\n")
-        f.write("Definition g_method_table : list (string * pres pyv) :=\n  [%s].\n\n" % ";\n   ".join("(%s, g_%s)" % (cstr(m), m) for m in methods))
-        for name in order[n_methods:]:
-            f.write(done[name] + "\n\n")
+        f.write("Definition np_array_any (a : pyv) : pres pyv := match np_array a with POk x => POk x | PErr _ => np_array1 a end.\n")
+        f.write("Definition py_call_ref (tbl : list string) (r : pyv) : pres pyv := match r with VApp \"funcref\" [n] => py_eval_opaque tbl n | _ => PErr \"TypeError\" end.\n\n")
+        marks = sorted([(upto, "lit", methods) for upto, methods in tables] + [(upto, tname, names) for upto, tname, names in opaque_tables], key=lambda t: t[0])
+        pos = 0
+        for upto, kind, names in marks:
+            for name in order[pos:upto]:
+                f.write(done[name][1] + "\n\n")
+            if kind == "lit":
+                f.write("Definition g_method_table : list (string * pres pyv) :=\n  [%s].\n\n" % ";\n   ".join("(%s, g_%s)" % (cstr(m), m) for m in names))
+            else:
+                f.write("Definition %s : list string :=\n  [%s].\n\n" % (kind, "; ".join(cstr(m) for m in names)))
+            pos = upto
+        for name in order[pos:]:
+            f.write(done[name][1] + "\n\n")
         f.write("Definition g_translated : list string := [%s].\n" % "; ".join(cstr(n) for n in order))
     print("translated %d functions: %s" % (len(order), ", ".join(order)))
 
